@@ -40,6 +40,11 @@ Theorem C01_roundtrip10 : forall msgs : list bytes,
 Proof. exact c01_roundtrip10. Qed.
 Print Assumptions C01_roundtrip10.
 
+(* A natural sufficient condition for [clean10]: "]]>" does not occur in the message. *)
+Theorem C01_clean10_sufficient : forall m : bytes, ~ occurs [93; 93; 62] m -> clean10 m.
+Proof. exact clean10_sufficient. Qed.
+Print Assumptions C01_clean10_sufficient.
+
 (* Round trip 1.1: a message is given with its chunking (the list of its non-empty chunks, cut at
    octet granularity: inside a multi-byte character or a delimiter look-alike are ordinary
    members); every chunking of every message list decodes to the messages, text intact. *)
